@@ -85,3 +85,23 @@ package cache
 //@   property C06
 //@   float real
 //@   call NewUnstable#0: assert arg_deviation == 0.05
+
+// the requested expiry is what reaches the node / the store on every path
+//@ ghost var cswCalls int
+//@ ghost var cswExpire time.Duration
+//@ ghost var cswKey string
+//@ extern func (c Cache) SetWithExpireCtx
+//@   ensures cswCalls == old(cswCalls) + 1 && cswExpire == expire && cswKey == key
+//@   modifies cswCalls, cswExpire, cswKey
+//@ func (cc cacheCluster) SetWithExpireCtx
+//@   property C06
+//@   flag nolock
+//@   requires cc.dispatcher != nil && hash.hInv(cc.dispatcher)
+//@   ghost at after Get#0: found = ret1
+//@   ensures implies(found, cswCalls == old(cswCalls) + 1 && cswExpire == expire && cswKey == key)
+//@   ensures implies(!found, result == cc.errNotFound && cswCalls == old(cswCalls))
+//@ func (c cacheNode) TakeWithExpireCtx
+//@   property C06
+//@   float real
+//@   requires cOK(c)
+//@   call aroundDuration#0: assert arg_duration == c.expiry
